@@ -231,10 +231,10 @@ def _():
 
 @witness("C04", "seq-region-break-hides-nested-style")
 def _():
-    # in a region with timeContainer="seq", after a child with an indefinite end, a child that is no content element ends the children
-    # loop and the nested styles after it are not read (without that child they are)
+    # repaired (lab commit d5261ab): in a region with timeContainer="seq", after a child with an indefinite end, a child that is no content
+    # element ended the children loop and the nested styles after it were not read (without that child they were)
     import ttconv.style_properties as s
     reg = '<head><layout><region xml:id="r" timeContainer="seq"><p>a</p>%s<style tts:color="red"/></region></layout></head><body/>'
     a = _imsc(TT % ("", reg % "<metadata/>")).get_region("r").get_style(s.StyleProperties.Color)
     b = _imsc(TT % ("", reg % "")).get_region("r").get_style(s.StyleProperties.Color)
-    if a != b: return f"nested style after a non-content child in a seq region: tts:color is {a}, without the child {b}"
+    if a != b or a is None: return f"nested style after a non-content child in a seq region: tts:color is {a}, without the child {b}"
